@@ -263,9 +263,17 @@ func (m *twaModel) onBlock(w *World) {
 	} else if valid && m.feedDown && h%20 != 0 {
 		// validation flips only at fetch heights; keep waiting
 	}
-	if v := m.compare(w); v != nil && m.lastVio == nil {
-		m.lastVio = v
-	}
+	func() {
+		defer func() {
+			if r := recover(); r != nil && m.lastVio == nil {
+				m.lastVio = &Violation{Property: "C17", OracleID: "c17.consumer", Signature: "consumer_query_panicked:" + panicSig(fmt.Sprint(r)),
+					Detail: fmt.Sprintf("height %d: a price query (GetTwa / CalcAssetPrice / GetLatestPrice) panicked: %v", w.Height(), r)}
+			}
+		}()
+		if v := m.compare(w); v != nil && m.lastVio == nil {
+			m.lastVio = v
+		}
+	}()
 }
 
 func (m *twaModel) sample(w *World, id uint64, rate uint64, h int64, feedOutage int64) {
